@@ -8,9 +8,9 @@ def obligations(tier):
                         backends=["cadical"], timeout=to,
                         claim="humansize_parse on every NUL-terminated string of length %d..%d (all byte values, exact-size object): accepts exactly digits[ ][kMGTPE][B], value = digits x 1000^k, overflow past 2^64-1 rejected; reads only the string" % (lo, hi),
                         bounds="string length %d..%d" % (lo, hi), stubs=["warnp"]))
-    if T:
-        obs.append(dict(name="humansize-parse-20-digit-numerals", harness="hsize.c", entry="h_parse", defs=["MINL=20", "MAXL=20", "DIGITS_ONLY"], unwind=26, backends=["cadical", "kissat"], timeout=to,
-                        claim="20-character strings (UINT64_MAX/10 and final-digit overflow edges)", bounds="length 20", stubs=[]))
+    for ln in (19, 20, 21):
+        obs.append(dict(name="humansize-parse-long-numerals-len%d" % ln, harness="hsize.c", entry="h_parse", defs=["MINL=%d" % ln, "MAXL=%d" % ln, "DIGITS_ONLY"], unwind=26, backends=["cadical", "kissat"], timeout=to,
+                        claim="humansize_parse on every %d-character digit string (optionally ending in k or B): the UINT64_MAX/10 pre-multiplication and last-digit pre-addition overflow edges, against the 128-bit reference" % ln, bounds="length %d, digits only" % ln, stubs=[]))
     # formatting: split on the magnitude so that the division loop count is fixed per case
     cuts = [0, 999, 99999, 9999999, 9999999999, 9999999999999, 9999999999999999, 9999999999999999999, 18446744073709551615]
     for i in range(len(cuts) - 1):
